@@ -481,6 +481,8 @@ func confirms(expectKind, expectLabel string, ro *replayOutcome) bool {
 		return ro.Kind == "panic"
 	case "exit":
 		return ro.Kind == "died" || ro.Kind == "exit"
+	case "unwind":
+		return ro.Kind == "died" || ro.Kind == "timeout" || (ro.Kind == "panic" && strings.Contains(ro.Detail, "stack"))
 	case "alloc":
 		return ro.Kind == "alloc" || (ro.Kind == "panic" && (strings.Contains(ro.Detail, "makeslice") || strings.Contains(ro.Detail, "out of memory"))) || ro.Kind == "died"
 	}
